@@ -97,6 +97,10 @@ def value_alphabet(f: refdb.Field, db):
             out.append((f"name:{c}", table[c], None, ("lookup", c) if names_count[table[c]] == 1 else ("lookup_any", table[c])))
             out.append((f"raw:{c}", None, c, ("raw", c)))
             out.append((f"both:{c}", table[c], c, ("raw", c)))
+        # every entry of the table by its name alone (the encode map is a table of its own: one wrong entry is enough)
+        for c in codes:
+            if c not in pick and c < (1 << b):
+                out.append((f"name:{c}", table[c], None, ("lookup", c) if names_count[table[c]] == 1 else ("lookup_any", table[c])))
         out.append(("undefined_name", "no such entry !", None, ("reject",)))
         out.append(("raw_too_wide", None, 1 << b, ("reject",)))
         out.append(("raw_negative", None, -1, ("reject",)))
